@@ -331,6 +331,13 @@ func genC10(g *rand.Rand, tier string) any {
 		}
 		p.Calls = append(p.Calls, c)
 	}
+	for _, c := range p.Calls {
+		if g.IntN(3) == 0 {
+			// a caller deadline far beyond anything the run does: the handler's context
+			// carries it, and must still end with the connection, not with the deadline
+			c.Timeout = time.Duration(1+g.IntN(10)) * time.Hour
+		}
+	}
 	p.Fault = g.IntN(3)
 	p.Pos = g.IntN(6*(nu+ns) + 4)
 	p.StallOut = g.IntN(4) == 0
@@ -396,6 +403,23 @@ func execC10(e *Env, pp any) {
 	if p.StallOut {
 		sout.Unstall()
 	}
+	// first quiescent point after the fault, before any timer is flushed:
+	// cancellation needs no time, so once Serve has returned the context of every
+	// handler that was in flight is done now - not only when its own deadline passes
+	e.NoAutoAdvance = true
+	reason = e.Drive(nil)
+	e.NoAutoAdvance = false
+	if reason == Crashed || reason == StepLimit {
+		return
+	}
+	var liveAtQuiescence []*CallRec
+	if sr.Returned {
+		for _, r := range inflight {
+			if r.HCtx != nil && r.HCtx.Err() == nil {
+				liveAtQuiescence = append(liveAtQuiescence, r)
+			}
+		}
+	}
 	reason = e.Settle()
 	if reason == Crashed || reason == StepLimit {
 		return
@@ -423,6 +447,13 @@ func execC10(e *Env, pp any) {
 		if !r.HReturned || r.HReturnEv > sr.ReturnEv {
 			e.Violate(prop, "stream-handler-outlives-serve", faultName, "streaming handler of call %d had not returned when Serve returned (handler return event %d, Serve %d)", id, r.HReturnEv, sr.ReturnEv)
 		}
+	}
+	for _, r := range liveAtQuiescence {
+		k := "stream"
+		if r.Spec.Kind == KUnary {
+			k = "unary"
+		}
+		e.Violate(prop, "handler-ctx-live", k+".until-own-deadline", "%s handler of call %d (caller timeout %v) was in flight when the connection ended (%s): Serve had returned and nothing was runnable, yet its context was still live", k, r.Spec.ID, r.Spec.Timeout, faultName)
 	}
 	// (3) context of every handler in flight is done
 	for _, r := range inflight {
@@ -545,7 +576,12 @@ func genC11(g *rand.Rand, tier string) any {
 			b = append(b, Op{K: 'r', N: read})
 		}
 		// wait until the handler has queued its messages, then cancel and leave
-		b = append(b, Op{K: 'y'}, Op{K: 'y'}, Op{K: 'y'}, Op{K: 'x'})
+		leave := Op{K: 'x'}
+		if g.IntN(4) == 0 {
+			// the caller does not cancel: a SendMsg of its own fails (in the codec) and it walks away
+			leave = Op{K: 'u'}
+		}
+		b = append(b, Op{K: 'y'}, Op{K: 'y'}, Op{K: 'y'}, leave)
 		if a.Kind == KBidi && m > 0 && g.IntN(3) == 0 {
 			// both directions abandoned at once: the handler is still sending
 			// while input it has not read yet piles up behind it (it reads only
@@ -558,6 +594,7 @@ func genC11(g *rand.Rand, tier string) any {
 			if g.IntN(2) == 0 {
 				// the wait cycle this shape is after needs writes that block until the peer reads
 				p.Links[0].Cap, p.Links[1].Cap = 0, 0
+				classU = false // the other calls must then use the shapes that are deadlock-free on bounded links
 			}
 		}
 		a.CProg = []Op{{K: 'f', A: ap, B: b}}
@@ -650,6 +687,9 @@ func execC11(e *Env, pp any) {
 	}
 	if p.Mode == 1 && p.Abandon.PreDone != 0 && ar.HInvoked > 0 {
 		e.Note("abandon.ctx-done-during-open")
+	}
+	if p.Mode == 1 && hasOp(p.Abandon.CProg, 'u') && ar.CancelEv != 0 {
+		e.Note("abandon.failed-send")
 	}
 	if p.Mode == 1 && p.Abandon.BothWays && ar.CancelEv != 0 {
 		e.Note("abandon.both-directions")
